@@ -299,6 +299,35 @@ pub fn sets(ctx: &Ctx) -> Vec<CaseSet> {
         }),
     ));
 
+    // wide values: hundreds of sibling compound values at small depth
+    let (tb6, cfg6) = (tb.clone(), cfg.clone());
+    out.push(CaseSet::new(
+        "wide",
+        ctx.size(60, 1_500),
+        Box::new(move |rep, rng, _| {
+            let n = rng.range(130, 400);
+            let items: Vec<Value> = (0..n)
+                .map(|_| {
+                    let a = gen::gen_atom(rng, &cfg6, &tb6);
+                    match rng.below(5) {
+                        0 => Value::vector(vec![a]),
+                        1 => Value::list(vec![a]),
+                        2 => Value::cons(a, gen::gen_atom(rng, &cfg6, &tb6)),
+                        3 => Value::vector(vec![Value::list(vec![a])]),
+                        _ => Value::list(vec![Value::vector(Vec::<Value>::new()), a]),
+                    }
+                })
+                .collect();
+            let v = match rng.below(3) {
+                0 => Value::list(items),
+                1 => Value::vector(items),
+                _ => Value::list(vec![Value::symbol("wrap"), Value::vector(items)]),
+            };
+            rep.max("max_siblings", n as u64);
+            check_value(rep, &v, rule, rng, "wide");
+        }),
+    ));
+
     if ctx.thorough {
         // exhaustive: every Unicode scalar value as Char and as 1-char string
         let blocks = (0x110000u64 + 1023) / 1024;
